@@ -371,7 +371,32 @@ def run_seq(ctx, p):
             ctx.observe("adm.shock", "Sedov", ok, branch="g=%s %s, object re-used at %g t" % (d["geom"], s.solution_type, f),
                         detail=dict(kw=d["passed"], t=tt, behind=[float(v) for v in ins["density"]], ahead=float(out["density"][1])))
     else:
-        pass   # Guderley: positivity via the online monitor on the catalogue draw
+        # Guderley (positivity: online monitor on every call).  The converging shock (before the collapse time) compresses
+        # the gas at rest inside it, the reflected shock (after it) compresses the in-falling gas outside it: density and
+        # pressure rise from the side the front is moving into to the side it has passed.
+        from .c02 import _gud_locate, FACTOR_C
+        for which, tL in (("incoming", -uni(rng, 0.3, 0.9)), ("reflected", uni(rng, 0.2, 1.0))):
+            tt = FACTOR_C * (tL + 1.0)
+            xs = np.geomspace(0.02, 4.0, 140)
+            sc = ctx.call(s, xs, tt)
+            dn, un = np.asarray(sc["density"], float), np.asarray(sc["velocity"], float)
+            rel = np.abs(np.diff(dn)) / np.maximum(np.abs(dn[1:]), np.abs(dn[:-1]))
+            cells = np.where(rel > 0.05)[0]
+            if cells.size == 0:
+                ctx.count("guderley_no_front_in_scan:" + which)
+                continue
+            j = int(max(cells, key=lambda k: abs(un[k + 1] - un[k])))      # the main shock carries the largest velocity jump
+            got = _gud_locate(ctx, s, tt, 0.75 * xs[j], 1.3 * xs[j + 1], levels=5, n=40)
+            if got is None:
+                ctx.count("guderley_front_left_bracket:" + which)
+                continue
+            eps = 1e-6 * got[0]
+            sol = ctx.call(s, np.array([got[0] - eps, got[0] + eps]), tt)
+            rho_in, rho_out = float(sol["density"][0]), float(sol["density"][1])
+            p_in, p_out = float(sol["pressure"][0]), float(sol["pressure"][1])
+            ok = (rho_out > rho_in and p_out > p_in) if which == "incoming" else (rho_in > rho_out and p_in > p_out)
+            ctx.observe("adm.shock", "Guderley", bool(ok), branch="%s shock g=%s" % (which, d["geom"]),
+                        detail=dict(kw=d["passed"], t=tt, r_shock=got[0], inside=dict(rho=rho_in, p=p_in), outside=dict(rho=rho_out, p=p_out)))
 
 
 # ---- Su-Olson ---------------------------------------------------------------------------------------------------------------------
